@@ -97,6 +97,17 @@ func registerProc(p *Program) {
 		if in.env.hookStartFails {
 			return in.newErrorf("fork/exec: permission denied")
 		}
+		// exec of a path that does not lead to a file (e.g. a dangling symlink) fails
+		if in.env.fs != nil {
+			fs := in.env.FS()
+			was := fs.tracing
+			fs.tracing = false
+			r := fs.resolve(pm.path, true)
+			fs.tracing = was
+			if r.errno != 0 || r.ino == nil {
+				return in.newErrorf("fork/exec %s: no such file or directory", pm.path.Show())
+			}
+		}
 		pm.exitCh = in.makeChan(1)
 		in.env.procs = append(in.env.procs, pm)
 		// cmd.Process must be usable for Kill
